@@ -277,6 +277,9 @@ func verifyFunc(prog *Program, key string) (res *FuncResult) {
 			}
 		}
 		ex.curPos = decl.Pos()
+		if suffix == "" || !ex.exitsChecked {
+			// (per-exit checks run before exitsChecked is set; the frame is checked once, on the merged exit state)
+		}
 		for i, c := range fc.Ensures {
 			kind, lab := "E", c.Label
 			if lab == "" {
@@ -294,6 +297,13 @@ func verifyFunc(prog *Program, key string) (res *FuncResult) {
 	outs := ex.inlineBody(fn.FullName(), sig, decl.Type, decl.Body, decl.Recv, recv, args, pkg, fc, true)
 	if !ex.exitsChecked {
 		checkEnsures(outs, "")
+	}
+	if !ex.st.dead {
+		ex.curPos = decl.Pos()
+		ex.frameVars = sc.vars
+		if g := ex.frameFormula(ex.st, nil); g != True {
+			ex.assert("O", "frame", g)
+		}
 	}
 	res.Obls = ex.obls
 	for _, n := range ex.declOrder {
@@ -329,7 +339,10 @@ func paramObj(decl *ast.FuncDecl, pkg *packages.Package, name string) types.Obje
 }
 
 // query renders the SMT-LIB text of one obligation.
-func (r *FuncResult) query(o *Obl, withModel bool) string {
+func (r *FuncResult) query(o *Obl, withModel bool) string { return r.queryMode(o, withModel, false) }
+
+// queryMode renders the query; in light mode quantified facts are left out (dropping assumptions is sound).
+func (r *FuncResult) queryMode(o *Obl, withModel, light bool) string {
 	var sb strings.Builder
 	sb.WriteString(prelude)
 	for _, d := range r.Decls {
@@ -337,6 +350,9 @@ func (r *FuncResult) query(o *Obl, withModel bool) string {
 		sb.WriteByte('\n')
 	}
 	for _, f := range r.Facts[:o.NFacts] {
+		if light && (strings.Contains(f.str, "(forall ") || strings.Contains(f.str, "(exists ")) {
+			continue
+		}
 		sb.WriteString("(assert ")
 		sb.WriteString(f.String())
 		sb.WriteString(")\n")
@@ -349,4 +365,70 @@ func (r *FuncResult) query(o *Obl, withModel bool) string {
 		sb.WriteString("(get-model)\n")
 	}
 	return sb.String()
+}
+
+// frameFormula states that, in state st, every heap or ghost cell of an object that existed at function entry
+// and is not named in the function's modifies clause still has its entry value. Only arrays whose version differs
+// from the entry version (or, if keys is given, exactly those keys) contribute.
+func (ex *Exec) frameFormula(st *State, keys []string) *T {
+	if ex.oldState == nil || ex.fc == nil {
+		return True
+	}
+	pk := ex.prog.funcPkg[ex.fn].Types
+	pre := &specCtx{ex: ex, st: ex.oldState, old: ex.oldState, vars: ex.frameVars, stateVars: map[string]stateVar{}, pkg: pk, where: ex.fc.Line}
+	if pre.vars == nil {
+		pre.vars = map[string]Val{}
+		for k, v := range ex.paramVals {
+			pre.vars[k] = v
+		}
+	}
+	type target struct {
+		key string
+		ref *T
+	}
+	if ex.frameTargets == nil {
+		ex.frameTargets = [][2]any{}
+		for _, m := range ex.fc.Modifies {
+			pre.where = m.Line
+			key, ref, ok := ex.specLvalue(pre, m.Expr)
+			if ok {
+				ex.frameTargets = append(ex.frameTargets, [2]any{key, ref})
+			}
+		}
+	}
+	if keys == nil {
+		for k := range st.env {
+			keys = append(keys, k)
+		}
+		sort.Strings(keys)
+	}
+	allocOld := ex.get(ex.oldState, "$alloc")
+	var gs []*T
+	for _, k := range keys {
+		if !(strings.HasPrefix(k, "$H.") || strings.HasPrefix(k, "$G.") || strings.HasPrefix(k, "$P.")) {
+			continue
+		}
+		cur := ex.get(st, k)
+		old := ex.get(ex.oldState, k)
+		if cur == old {
+			continue
+		}
+		whole := false
+		p := Const("p", SInt)
+		conds := []*T{Lt(p, allocOld), Le(I(0), p)}
+		for _, tg := range ex.frameTargets {
+			if tg[0].(string) == k {
+				if tg[1] == nil || tg[1].(*T) == nil {
+					whole = true
+				} else {
+					conds = append(conds, Ne(p, tg[1].(*T)))
+				}
+			}
+		}
+		if whole {
+			continue
+		}
+		gs = append(gs, Forall([]string{"p"}, Imp(And(conds...), Eq(Select(cur, p), Select(old, p))), Select(cur, p)))
+	}
+	return And(gs...)
 }
